@@ -16,6 +16,14 @@ Record oracle := {
   o_re_match : string -> string -> bool   (* regex, value: used by Route.v only *)
 }.
 
+Definition mk_oracle_route (re_valid : list (string * bool)) (re_match : list (string * list (string * bool))) : oracle :=
+  {| o_re_valid := fun r => match aget r re_valid with Some b => b | None => false end;
+     o_rate := fun _ => None;
+     o_re_match := fun r v => match aget r re_match with
+                              | Some l => match aget v l with Some b => b | None => false end
+                              | None => false
+                              end |}.
+
 (** ---- decoded resources (xdsresource.* structs) ---- *)
 Inductive matcher := MExact (s : string) | MPrefix (s : string) | MRegex (s : string).
 Definition matchers := list (string * matcher).     (* Go: map[string]Matcher *)
